@@ -52,8 +52,9 @@ def _contains_var(f, cache):
     return r
 
 
-def collect_index_terms(fs, qcache, vcache):
-    """Int-sorted ground terms used as array indices or as arguments of uninterpreted functions."""
+def collect_index_terms(fs, qcache, vcache, numeral_uses=None):
+    """Int-sorted ground terms used as array indices or as arguments of uninterpreted functions.
+    numeral_uses (optional dict): numeral term id -> list of array terms it indexes."""
     out = {}
     seen = set()
 
@@ -71,6 +72,8 @@ def collect_index_terms(fs, qcache, vcache):
                 idx = t.arg(1)
                 if idx.sort() == z3.IntSort() and not _contains_var(idx, vcache):
                     out[idx.get_id()] = idx
+                    if numeral_uses is not None and z3.is_int_value(idx):
+                        numeral_uses.setdefault(idx.get_id(), []).append(t.arg(0))
                 # integer array reads are index-valued in this code base (edge -> node, sorted position, ...):
                 # they are candidates for variables of the matching index sort
                 if kind == z3.Z3_OP_SELECT and t.sort() == z3.IntSort() and not _contains_var(t, vcache):
@@ -286,7 +289,7 @@ class Instantiator:
                 for i in range(nv):
                     if self.typed:
                         vc = typing.var_class(f, i)
-                        cs = [t for t, c in cands if c == vc or (c is None and z3.is_int_value(t))]
+                        cs = [t for t, c in cands if c == vc]
                     else:
                         cs = [t for t, c in cands]
                     per_var.append(cs[:MAX_CANDS])
@@ -362,13 +365,26 @@ class Instantiator:
             typing = Typing()
             for f in ground + quant:
                 typing.visit(f, [])
-            terms = collect_index_terms(ground, self.qcache, self.vcache)
+            numeral_uses = {}
+            terms = collect_index_terms(ground, self.qcache, self.vcache, numeral_uses)
             goal_terms = {t.get_id() for t in collect_index_terms(
                 [f for f in ground if f.get_id() in goal_flat], self.qcache, self.vcache)}
             orig_terms = {t.get_id() for t in collect_index_terms(ground[:n_orig], self.qcache, self.vcache)}
             terms.sort(key=lambda t: (0 if t.get_id() in goal_terms else (1 if t.get_id() in orig_terms else 2),
                                       len(t.sexpr())))
-            cands = [(t, typing.term_class(t)) for t in terms]
+            cands = []
+            for t in terms:
+                if z3.is_int_value(t):
+                    # a numeral is a candidate for the index sorts of the arrays it actually indexes
+                    classes = set()
+                    for arr in numeral_uses.get(t.get_id(), []):
+                        b = typing.base(arr, [])
+                        if b is not None:
+                            classes.add(typing.uf.find(("idx", b)))
+                    for c in classes:
+                        cands.append((t, c))
+                else:
+                    cands.append((t, typing.term_class(t)))
             self.stats["candidates"] = max(self.stats["candidates"], len(cands))
             new_ground, new_quant = [], []
             for q in quant:
